@@ -814,9 +814,10 @@ impl<'ast, 'res> Resolver<'ast, 'res> {
                 let r = self.infer_expr_type(rhs);
                 match op {
                     BinaryOp::Add => match (l, r) {
-                        (Some(ValueType::String | ValueType::Dynamic), ..)
-                        | (.., Some(ValueType::String | ValueType::Dynamic))
-                        | (Some(ValueType::Number), Some(ValueType::Number)) => {}
+                        (
+                            Some(ValueType::String | ValueType::Number | ValueType::Dynamic),
+                            Some(ValueType::String | ValueType::Number | ValueType::Dynamic),
+                        ) => {}
                         _ => {
                             self.emit_error(
                                 *span,
